@@ -530,6 +530,8 @@ def build_strategies(tier='quick'):
         '<xsl:apply-templates select="//i" mode="die"/>',                         # terminate inside a nested template
         '<xsl:copy-of select="exsl:node-set(1)"/>',
         '<xsl:call-template name="deep"><xsl:with-param name="n" select="40"/></xsl:call-template>',   # terminate at depth 40
+        '<xsl:number value="1234567" grouping-separator="{substring(\'ab,\', 1, 2)}" grouping-size="3"/>',  # a separator must be one character: fails when the AVT is evaluated
+        '<xsl:number value="count(//i)" format="{concat(\'1\', \'\')}" lang="{$gv}" letter-value="{$gv}"/><xsl:value-of select="format-number(1, \'0\', \'nosuchformat\')"/>',
     ])
     broken_xsl = st.sampled_from([
         lambda s: s.replace('</xsl:stylesheet>', ''),                                          # not well-formed
@@ -618,7 +620,7 @@ def build_strategies(tier='quick'):
                 alive[s] = True
                 continue
             u = draw(st.integers(0, nunits - 1))
-            opts = ['run', 'run', 'compile', 'parse', 'parsex', 'params', 'clearparams', 'delete', 'install', 'install', 'uninstall']
+            opts = ['run', 'run', 'runf', 'compile', 'parse', 'parsex', 'params', 'clearparams', 'delete', 'install', 'install', 'uninstall']
             if u in cs[s]:
                 opts += ['runcs', 'runcs', 'dcs']
                 opts.remove('compile')
@@ -668,6 +670,8 @@ def build_strategies(tier='quick'):
         (['new', 'parse:1', 'parse:0', 'runps:0'], 2),
         (['new', 'compile:0', 'parse:0', 'runcp:0', 'runcp:0'], 1),
         (['new', 'install', 'run:0', 'install', 'uninstall', 'run:0', 'delete'], 1),
+        (['new', 'runf:0', 'delete'], 1),                  # result target given as a file name: the library owns the stream
+        (['new', 'runf:0', 'runf:0', 'run:0'], 1),
         (['new', 'compile:0', 'dcs:0', 'compile:0', 'delete'], 1),     # with a unit that cannot be compiled the dcs step is dropped: a failed compile must leave nothing behind
     ]
 
